@@ -21,6 +21,9 @@ var c03Templates = []string{
 	"if a > b { a } else { b }",
 	"for i := 0; i < n; i++ { s += i }",
 	"for i, v := range l { print(v) }",
+	"for i := 0; ; i++ { break }",
+	"for i := 0; i < 3; { i++ }",
+	"for ; i < 3; i++ { }",
 	"for v in l { v }",
 	"switch x {\ncase 1, 2:\n a\ndefault:\n b\n}",
 	"func f(a, b=2) { return a + b }",
@@ -80,8 +83,8 @@ func c03CheckDiagnostic(src string, err error, positions bool) {
 	}
 }
 
-// HarnessC03ParserHoles: every template with one (quick) or two adjacent
-// (thorough) symbolic ASCII bytes substituted or inserted at every position:
+// HarnessC03ParserHoles: every template with one (quick) or, in the templates
+// of at most 14 bytes, two adjacent (thorough) symbolic ASCII bytes substituted or inserted at every position:
 // parse, compile and error rendering never panic, and diagnostics point into the text.
 func HarnessC03ParserHoles() { c03ParserHoles(false) }
 
@@ -93,7 +96,9 @@ func c03ParserHoles(positions bool) {
 	t := c03Templates[verifrt.Choose(len(c03Templates))]
 	pos := verifrt.Choose(len(t) + 1)
 	hole := 1
-	if verifrt.Thorough() {
+	if verifrt.Thorough() && len(t) <= 14 {
+		// two adjacent symbolic bytes: only in the short templates (the path count
+		// grows with the square of the number of lexer byte classes)
 		hole = 1 + verifrt.Choose(2)
 	}
 	sym := verifrt.String(hole)
